@@ -12,11 +12,13 @@ import (
 func (c *Config) MatchStandaloneJSON(t testingT, input any, matchers ...match.JSONMatcher) {
 	t.Helper()
 
-	if c.extension == "" {
-		c.extension = ".json"
+	// default the extension on a copy: the caller's Config must not be modified
+	cc := *c
+	if cc.extension == "" {
+		cc.extension = ".json"
 	}
 
-	matchStandaloneJSON(c, t, input, matchers...)
+	matchStandaloneJSON(&cc, t, input, matchers...)
 }
 
 func MatchStandaloneJSON(t testingT, input any, matchers ...match.JSONMatcher) {
